@@ -9,7 +9,7 @@ def run(chk):
     quick = chk.tier == "quick"
     jobs = c07.make_jobs(chk, 10 if quick else 30)
     jobs = [j for j in jobs if j["id"][0] in "rga"][:6 if quick else 30]     # high-ratio, generated and recorded instances
-    for j in jobs: j["id"] = "c06c:" + j["id"]; j["eps_out_of_range"] = True
+    for j in jobs: j["id"] = "c06c:" + j["id"]; j["eps_out_of_range"] = True; j["gym_full"] = True
     res = cl.run_jobs(jobs, nproc=4 if quick else 10)
     insts = []; meta = []
     for j in jobs:
@@ -24,6 +24,16 @@ def run(chk):
                 k0 = next(k for k in set(last) | set(oob) if last.get(k, 0) != oob.get(k, 0))
                 chk.violation("compiled-out-of-range-episode-executes-other-steps", f"init(starting_eps beyond the last episode): {k0[0]}[{k0[1]}] executed {oob.get(k0, 0)} times, "
                               f"in the last episode (to which the index is clipped) {last.get(k0, 0)} times", case)
+        for e, cg_ in enumerate(r.get("calls_gym", [])):
+            cnt = Counter((c[0], c[1]) for c in cg_)
+            dup = [k for k, v in cnt.items() if v > 1]
+            vs_ = {n: {v[0] for v in r["raw"][e]["verts"][n] if v[0] >= 0} for n in names} if r.get("raw") else None
+            if dup:
+                chk.violation("compiled-step-executed-more-than-once", f"episode {e}, reset() + graph.max_steps (= {r.get('max_steps')}) x step(): {dup[0][0]}[{dup[0][1]}] executed "
+                              f"{cnt[dup[0]]} times", case)
+            elif vs_ is not None:
+                ghost = [k for k in cnt if k[1] not in vs_.get(k[0], set())]
+                if ghost: chk.violation("compiled-unscheduled-step-executed", f"episode {e}, reset() + max_steps x step(): {ghost[0][0]}[{ghost[0][1]}] is not a vertex of the episode's graph", case)
         for e, ep in enumerate(r["episodes"]):
             if "rows" not in ep: chk.feat("init_record-unavailable"); continue
             chk.traces_impl += 1
